@@ -66,7 +66,12 @@ class Container:
     def __contains__(self, item):
         if hasattr(item, "id"):
             if isinstance(item, self._itemclass):
-                return item.name in self._backend
+                # same name is not enough: an entity of the same name may
+                # live in another parent (other block, other subtree)
+                if item.name not in self._backend:
+                    return False
+                found = self._backend.get_by_name(item.name)
+                return found.get_attr("entity_id") == item.id
             # looks like a NIX object, but wrong type
             raise TypeError(
                 "Wrong item type: {} required or the name or ID of one".format(
